@@ -79,19 +79,22 @@ def env_offline(extra=None):
 
 def run(cmd, cwd=None, env=None, timeout=None, input=None, check=False, stdout=subprocess.PIPE,
         stderr=subprocess.STDOUT):
-    """Run a command, returning (returncode, output text). rc 124 on timeout."""
+    """Run a command, returning (returncode, output text). rc 124 on timeout (the whole
+    process group is killed, so no orphaned coqc/rustc keeps running)."""
+    import signal
+    p = subprocess.Popen(cmd, cwd=cwd, env=env, stdin=subprocess.PIPE if input is not None else subprocess.DEVNULL,
+                         stdout=stdout, stderr=stderr, text=True, start_new_session=True)
     try:
-        p = subprocess.run(cmd, cwd=cwd, env=env, timeout=timeout, input=input, stdout=stdout,
-                           stderr=stderr, text=isinstance(input, str) or input is None)
-        out = p.stdout if p.stdout is not None else ""
-        if isinstance(out, bytes):
-            out = out.decode("utf-8", "replace")
+        out, _ = p.communicate(input=input, timeout=timeout)
         rc = p.returncode
-    except subprocess.TimeoutExpired as e:
-        out = e.stdout or ""
-        if isinstance(out, bytes):
-            out = out.decode("utf-8", "replace")
+    except subprocess.TimeoutExpired:
+        try:
+            os.killpg(p.pid, signal.SIGKILL)
+        except OSError:
+            pass
+        out, _ = p.communicate()
         rc = 124
+    out = out or ""
     if check and rc != 0:
         raise RuntimeError("command failed (%d): %s\n%s" % (rc, cmd, out[-4000:]))
     return rc, out
@@ -150,10 +153,18 @@ class Verdict:
         self.t0 = time.time()
         self.violations = []      # (replay_path, suffix)
         self.known_hits = {}      # finding id -> (finding, count, example)
+        self.class_counts = {}    # unknown failure class -> number of failing inputs
         self.coverage = {"evaluations": 0, "distinct_nontrivial": 0, "rule": "", "samples": []}
         self.assumptions = []
         self.known = load_known_findings(prop)
         self.notes = []
+        # replay files of earlier runs of this property are stale
+        import glob as _glob
+        for f in _glob.glob(os.path.join(REPLAY, "%s-*.json" % prop)):
+            try:
+                os.remove(f)
+            except OSError:
+                pass
 
     # -- reporting -----------------------------------------------------------
     def write_replay(self, payload):
@@ -188,6 +199,11 @@ class Verdict:
             ent = self.known_hits.setdefault(f["id"], [f, 0, payload])
             ent[1] += 1
         else:
+            # at most 3 replay files per class of failure; the rest are only counted
+            n = self.class_counts.get(cls, 0) + 1
+            self.class_counts[cls] = n
+            if n > 3:
+                return
             payload = dict(payload)
             payload["class"] = cls
             payload.setdefault("key", cls)
@@ -208,6 +224,8 @@ class Verdict:
             print("VIOLATION property=%s replay=%s%s" % (self.prop, path, suffix))
         cov = dict(self.coverage)
         cov["known_findings_hit"] = {fid: n for fid, (f, n, ex) in self.known_hits.items()}
+        if self.class_counts:
+            cov["failing_inputs_by_class"] = dict(self.class_counts)
         if self.notes:
             cov["notes"] = self.notes
         ev = {
